@@ -56,13 +56,16 @@ def run(rep, tier, seed, tr_errors):
     Z = circuit.get_impedances(f)
     Z = Z + (rs.normal(0, 0.002, Z.shape) + 1j * rs.normal(0, 0.002, Z.shape)) * abs(Z)
     data = DataSet(f, Z, label="c17")
+    data41 = pyimpspec.generate_mock_data("CIRCUIT_1", noise=0.5, seed=42, num_per_decade=10)[0]
     problems = []
     procs = [1, 2, 4] if tier == "quick" else [1, 2, 4, 16]
     patterns = [0, 1, 3] if tier == "quick" else [0, 1, 2, 3, 5]
     import pyimpspec.analysis.zhit.offset as zo
     import pyimpspec.analysis.zhit.reconstruction as zr
     import pyimpspec.analysis.fitting as fit_mod
-    orig = (zo._adjust_offset, zr._reconstruct, fit_mod._fit_process)
+    import pyimpspec.analysis.kramers_kronig.exploratory as kk_exp
+    import pyimpspec.analysis.kramers_kronig.cnls as kk_cnls
+    orig = (zo._adjust_offset, zr._reconstruct, fit_mod._fit_process, kk_exp._cnls_test)
     runs = 0
     try:
         base = {}
@@ -73,6 +76,8 @@ def run(rep, tier, seed, tr_errors):
                 zo._adjust_offset = delayed(orig[0], pat, "a") if pat else orig[0]
                 zr._reconstruct = delayed(orig[1], pat, "b") if pat else orig[1]
                 fit_mod._fit_process = delayed(orig[2], pat, "c") if pat else orig[2]
+                kk_exp._cnls_test = delayed(orig[3], pat, "d") if pat else orig[3]
+                kk_cnls._test_wrapper = kk_exp._cnls_test        # pickled by reference: the name must resolve to the same object
                 calls = {
                     "perform_zhit(auto,auto,auto)": lambda: pyimpspec.perform_zhit(data, smoothing="auto", interpolation="auto", window="auto", num_procs=np_),
                     "fit_circuit(lists)": lambda: pyimpspec.fit_circuit(parse_cdc("R(RC)(RQ)"), data, method=["leastsq", "least_squares", "nelder"],
@@ -81,6 +86,20 @@ def run(rep, tier, seed, tr_errors):
                 if pat == 0:
                     from pyimpspec.analysis.kramers_kronig import evaluate_log_F_ext
                     calls["evaluate_log_F_ext"] = lambda: evaluate_log_F_ext(data, test="real", num_F_ext_evaluations=10, num_procs=np_)[0][1][0]
+                if pat in (0, 3) and np_ in (1, 4, 16):
+                    # the CNLS test consumes its pool results one by one and stops early: the set of fits must not depend on completion order
+                    from pyimpspec.analysis.kramers_kronig import evaluate_log_F_ext as elf
+
+                    class _Sig:
+                        pass
+
+                    def cnls_call():
+                        ev = elf(data41, test="cnls", num_F_ext_evaluations=0, max_nfev=100, num_procs=np_)    # stops early after ~26 of 76 fits
+                        o = _Sig()
+                        o.num_RC = tuple(r.num_RC for r in ev[0][1])
+                        o.pseudo_chisqr = float(sum(r.pseudo_chisqr for r in ev[0][1]))
+                        return o
+                    calls["evaluate_log_F_ext(cnls, automatic num_RC range)"] = cnls_call
                 for name, fn in calls.items():
                     try:
                         sig = result_signature(fn())
@@ -99,7 +118,8 @@ def run(rep, tier, seed, tr_errors):
                             name, np_, pat, base[name][1], base[name][2], diff, {k: sig[k] for k in diff if k != "impedances"},
                             {k: base[name][0].get(k) for k in diff if k != "impedances"}))
     finally:
-        zo._adjust_offset, zr._reconstruct, fit_mod._fit_process = orig
+        zo._adjust_offset, zr._reconstruct, fit_mod._fit_process, kk_exp._cnls_test = orig
+        kk_cnls._test_wrapper = orig[3]
     # mock data: bit-identical per seed, different between seeds
     for ident in (["CIRCUIT_1", "CIRCUIT_2"] if tier == "quick" else ["CIRCUIT_1", "CIRCUIT_2", "CIRCUIT_3", "CIRCUIT_4", "CIRCUIT_5"]):
         try:
